@@ -31,6 +31,18 @@ PROP = {
             "files": ["chainntnfs/c14_test.go"],
             "shards": {"quick": 8, "thorough": 16},
             "watchdog": {"quick": 600, "thorough": 3000},
+            "floors": {
+                "quick": {"cases": 4000, "oracle_conf_sound_evals": 13000, "oracle_spend_sound_evals": 18000,
+                          "oracle_conf_complete_evals": 180000, "oracle_spend_complete_evals": 250000,
+                          "oracle_hint_evals": 390000, "negative_conf_events": 1500, "spend_reorg_events": 2000,
+                          "historical_delivered": 22000, "disconnects": 32000,
+                          "histories_with_limit_depth_reorg": 700},
+                "thorough": {"cases": 100000, "oracle_conf_sound_evals": 320000, "oracle_spend_sound_evals": 450000,
+                             "oracle_conf_complete_evals": 4500000, "oracle_spend_complete_evals": 6000000,
+                             "oracle_hint_evals": 9500000, "negative_conf_events": 37000,
+                             "spend_reorg_events": 50000, "historical_delivered": 550000, "disconnects": 800000,
+                             "histories_with_limit_depth_reorg": 17000},
+            },
         },
         {
             "name": "concurrent", "pkg": "chainntnfs", "pkgname": "chainntnfs_test", "test": "TestVerifC14Concurrent",
@@ -39,6 +51,14 @@ PROP = {
             "shards": {"quick": 8, "thorough": 16},
             "watchdog": {"quick": 600, "thorough": 3000},
             "gomaxprocs": 4,
+            "floors": {
+                "quick": {"cases": 80, "concurrent_connects": 900, "concurrent_client_ops": 1300,
+                          "oracle_conf_sound_evals": 300, "oracle_spend_sound_evals": 450,
+                          "oracle_conf_complete_evals": 2400, "oracle_hint_evals": 4500},
+                "thorough": {"cases": 2000, "concurrent_connects": 22000, "concurrent_client_ops": 32000,
+                             "oracle_conf_sound_evals": 7500, "oracle_spend_sound_evals": 11000,
+                             "oracle_conf_complete_evals": 60000, "oracle_hint_evals": 110000},
+            },
         },
     ],
 }
